@@ -1019,12 +1019,12 @@ func doCheck(prop, tier string, seed uint64, nworkers, maxSec int, noMin bool) i
 		}
 		return 2
 	}
+	if nviol > 0 {
+		return 1
+	}
 	if tot.Runs == 0 {
 		fmt.Fprintln(os.Stderr, "HARNESS: no runs executed")
 		return 2
-	}
-	if nviol > 0 {
-		return 1
 	}
 	return 0
 }
